@@ -1098,11 +1098,11 @@ theorem peraseRegion_eq (t : PTier α) (a b : α) :
     t.eraseRegion a b true = (do
       let nt ← t.new
       let ct ← nt.crop a b false
-      if decide (clipHi true t.hi b ≤ clipLo true t.lo a) then pure nt
-      else do
-        let ps0 ← ct.ps.reverse.foldlM deletePt nt.ps
+      let ps0 ← ct.ps.reverse.foldlM deletePt nt.ps
+      if decide (clipLo true t.lo a < clipHi true t.hi b) then
         PTier.new { nt with ps := ps0 } (ps := some (peraseList (clipLo true t.lo a) (clipHi true t.hi b) ps0))
-          (hi := some (shiftBack (clipLo true t.lo a) (clipHi true t.hi b) nt.hi))) := rfl
+          (hi := some (shiftBack (clipLo true t.lo a) (clipHi true t.hi b) nt.hi))
+      else pure { nt with ps := ps0 }) := rfl
 
 theorem perase_sorted (a b : α) (hab : a ≤ b) (ps : List (Pt α)) (h : SortedT ps) :
     SortedT (peraseList a b ps) := by
